@@ -1402,15 +1402,17 @@ theorem unmarshal_opaque_enc (S : Schema) (d : Nat) (hd : S.isOpaquePayloadDyn d
     have hdr : ¬ S.dyns.length ≤ d := by
       have := Schema.dyn_lt_of_kind (S := S) (d := d) (by rw [hk]; exact fun e => nomatch e)
       omega
-    unfold unmarshal
-    rw [if_neg hdr, Cur.start_enc _ h]
-    simp only [Res.ok_bind, hk, if_neg htag]
     obtain ⟨f, hf, hsz'⟩ : ∃ f, decFuel (enc (Item.struct tag its)).length = f + 1 + 1
         ∧ Item.sizeList its ≤ f :=
       ⟨(enc (Item.struct tag its)).length + 2999998, by unfold decFuel; omega, by omega⟩
-    rw [hf, decK]
+    unfold unmarshal
+    rw [if_neg hdr, Cur.start_enc _ h, Res.ok_bind, hf]
+    -- NB: the fuel must be opaque here: `simp` unfolds fuel-recursive functions applied to `n + literal`
+    generalize f = f0 at hsz' ⊢
+    simp only [hk, if_neg htag]
+    rw [decK]
     simp only [h1, if_true, h3]
-    rw [decCustom_unknownPayload_enc S tag its h f hsz']
+    rw [decCustom_unknownPayload_enc S tag its h f0 hsz']
     rfl
   · exact nomatch hd
 
